@@ -40,7 +40,7 @@ import (
 	_ "google.golang.org/protobuf/types/known/timestamppb"
 )
 
-var scenarios = []string{"desc", "types", "legacy", "registry"}
+var scenarios = []string{"desc", "types", "legacy", "registry", "cycle"}
 
 // ---------------------------------------------------------------------------- observations
 
@@ -539,6 +539,10 @@ func digestOf(obs map[string]string) (string, map[string]string) {
 var itemMaps = map[string]map[string]string{} // digest → per-item hashes (diagnostics), filled by the child
 
 func childC19(res *childResult, sc string, n int, seed int64, trace bool) {
+	if sc == "cycle" {
+		childCycle(res, max(n, 1), seed)
+		return
+	}
 	runtime.GOMAXPROCS(runtime.NumCPU())
 	if n < 1 {
 		n = 1
@@ -775,7 +779,7 @@ func runC19(c *C) {
 	if c.HasModel() {
 		facts := c.Ask("facts")
 		c.R.Notes = append(c.R.Notes, "protocol variants selected from the extracted shape facts: "+facts)
-		want := "msginfo=flag/bodyThenStore/locks=true/storeOnHit=false file=started/bodyThenStore/locks=true/storeOnHit=true once=flag/bodyThenStore/locks=true/storeOnHit=false reg=locks:true"
+		want := "msginfo=flag/bodyThenStore/locks=true/storeOnHit=false file=started/bodyThenStore/locks=true/storeOnHit=true once=flag/bodyThenStore/locks=true/storeOnHit=false reg=locks:true aberrant=never"
 		got := facts
 		if i := strings.Index(facts, "msginfo="); i >= 0 {
 			got = facts[i:]
